@@ -19,6 +19,7 @@ CHECKS = {
              "c01_code_rows / c01_code_cells: the loop of OverlapWorker.calculate (with _reset, the filters, the index dictionaries, the slice functions) re-translated into an assignment log, which for unique known names and windows "
              "holds at (gene index, window index) the per-TE overlaps of the gene of that name and that window - the terms the density numerator sums - and nothing else; "
              "c01_merge_cells / c01_code_pipeline_cells: MergeData.sum (_process_sum, the three parameter sets of both axes, slices, labels) re-translated; in every order of the six summations the density cell at (axis, side, group index, window index, gene index) is the model's cell (numerator, divisor) of the group, gene and window of those names; "
+             "c01_code_end_to_end: on the data of any result file of a successful model run (genes of the chromosome, windows, revised TE rows) the two translated stages leave, at the cell of a group / window / gene index, the naive specification (covered positions, each once, over the region length) for the group, window and gene of those names; "
              "unit differentials: the translated loops vs the real OverlapWorker.calculate / MergeData.sum on small containers, every array cell; "
              "tie 2: generated annotation pairs through the real library stages (windows from the code's parse_algorithm_config) vs the model (vm_compute) and vs the brute-force statement.",
         design="DESIGN.md 6 C01"),
